@@ -16,7 +16,7 @@ RULE = (
     "Hypothesis: a layout (all backends / sample dtypes / multi-file / header offsets as in C01) "
     "and a derivation tree: up to 7 (quick: 5) nodes, node k>0 = (parent index < k, op, arg) with "
     "op in {pos, neg, add, radd, sub, rsub, mul, rmul, truediv, rtruediv, floordiv, rfloordiv, "
-    "pow, rpow, cols} and scalars from {-3..3, 0.5, -2.5, 2.0, 1000}; chains reach depth 7 "
+    "pow, rpow, cols} and scalars from {-3..3, 0.5, -2.5, 2.0, 1000, -1000} (one node in four repeats its parent's operator); chains reach depth 7 "
     "(quick: 4). Then a generated read schedule: (node, row expression[, column selector]) "
     "triples in any order; the root is additionally read first and last. Oracle: the same Python "
     "operator expression applied to the fully loaded array, then NumPy indexing; shape and "
@@ -30,7 +30,7 @@ ASSUMPTIONS = ['NumPy operator semantics (NEP 50 promotion) define "eager"']
 BINOPS = ['add', 'radd', 'sub', 'rsub', 'mul', 'rmul', 'truediv', 'rtruediv', 'floordiv',
           'rfloordiv', 'pow', 'rpow']
 UNOPS = ['pos', 'neg']
-SCALARS = [-3, -2, -1, 0, 1, 2, 3, 0.5, -2.5, 2.0, 1000]
+SCALARS = [-3, -2, -1, 0, 1, 2, 3, 0.5, -2.5, 2.0, 1000, -1000]
 
 PY = {
     'pos': lambda x, a: +x, 'neg': lambda x, a: -x,
@@ -57,6 +57,8 @@ def _case(draw, max_nodes, max_depth):
         if depth[parent] >= max_depth:
             parent = 0
         op = draw(st.sampled_from(BINOPS + UNOPS + ['cols', 'cols']))
+        if parent >= 1 and draw(st.integers(0, 3)) == 0:
+            op = nodes[parent - 1][1]        # repeat the parent's operator (x + a + b, x * a * b)
         if op == 'cols':
             arg = draw(S.col_selector(width[parent]).filter(lambda c: c is not None))
             w = len(np.arange(width[parent])[S.to_cols(arg)])
